@@ -1,6 +1,7 @@
 """C09 — the reported critical path is a maximum-weight path of the graph (also after re-weighting)."""
 from __future__ import annotations
 
+import os
 from typing import Any, Dict, List
 
 from hv import core, cpdrv, drv
@@ -17,7 +18,7 @@ ASSUMPTIONS = ["own longest-path DP (hv/ref/cp.py::longest_path) trusted", "grap
 FLOAT_KEYS = ["files"]          # fractional-time-unit workload class (hv/shard.py)
 PLAN = {"quick": {"shards": 16, "cases": 480, "timeout": 900}, "thorough": {"shards": 16, "cases": 5000, "timeout": 3400}}
 FLOORS = {"quick": {"distinct_nontrivial": 100, "paths_checked": 1500, "reweighted_paths": 1000, "critical_path.post": 1500,
-                    "path_changed_after_reweight": 100, "total_conserving_reweights": 300, "paths_rechecked_after_overlay": 150},
+                    "path_changed_after_reweight": 100, "total_conserving_reweights": 300, "paths_rechecked_after_overlay": 150, "paths_checked_on_graphs_restored_after_a_second_save": 100},
           "thorough": {"distinct_nontrivial": 1500, "paths_checked": 40000, "reweighted_paths": 30000, "critical_path.post": 40000,
                        "path_changed_after_reweight": 3000, "total_conserving_reweights": 9000, "paths_rechecked_after_overlay": 3000}}
 
@@ -121,6 +122,13 @@ def run_case(case: Dict[str, Any], ctx: Any) -> core.CaseResult:
             if oko:
                 res.counters["paths_rechecked_after_overlay"] += 1
                 check_path(g, res, f"{tag} after an overlay was written", makespan)
+        resave_dir = None
+        if rnd.random() < 0.3:
+            import os
+            resave_dir = os.path.join(A.workdir, f"resave_{rnd.randrange(10 ** 6)}")
+            oks, _ = drv.guard(res, "CPGraph.save", g.save, resave_dir)
+            if not oks:
+                resave_dir = None
         elist = list(g.edges)
         for k in range(n_rw):
             before = list(g.critical_path_nodes)
@@ -162,6 +170,18 @@ def run_case(case: Dict[str, Any], ctx: Any) -> core.CaseResult:
             if list(g.critical_path_nodes) != before:
                 res.counters["path_changed_after_reweight"] += 1
             check_path(g, res, f"{tag} after re-weighting #{k} ({mode})", None, wset)
+            if resave_dir is not None and k == 0:
+                # the what-if result is saved over the earlier save and read back: the restored graph's reported path must be a
+                # maximum-weight path of the restored graph's own edges
+                from hta.analyzers.critical_path_analysis import restore_cpgraph
+                oks, zp = drv.guard(res, "CPGraph.save (again, same directory)", g.save, resave_dir)
+                if oks:
+                    okr, rg = drv.guard(res, "restore_cpgraph", restore_cpgraph, zp, A.ta.t, A.rank)
+                    if okr:
+                        res.counters["paths_checked_on_graphs_restored_after_a_second_save"] += 1
+                        check_path(rg, res, f"{tag} restored after the what-if was saved over the first save", None)
+                    import shutil
+                    shutil.rmtree(os.path.join("/tmp", resave_dir.lstrip("/")), ignore_errors=True)
     res.nontrivial = nontrivial
     res.trivial_reason = "no branching graph with >= 10 edges"
     res.key = core.digest([case["files"], case["win_seed"], case["zero_weight"]])
